@@ -138,5 +138,6 @@ Fixpoint size (e : ast) : nat :=
   | ELambdaDef ps body => S (length ps + size body)
   | ELambdaCall lam args => S (size lam + fold_right (fun a n => (size a + n)%nat) O args)
   | EAt _ c | ESpill c | ENeg c | EPct c => S (size c)
+  | EArray rows => (3 + length rows + fold_right (fun r n => (length r + n)%nat) O rows)%nat
   | _ => 1%nat
   end.
